@@ -515,7 +515,7 @@ func derivesFromParam(s *Shape) bool {
 func lengthEstablished(a *FnA, at ssa.Instruction, s *Shape, width int) bool {
 	str := s.String()
 	var edges []Edge
-	for _, b := range a.fn.Blocks {
+	for _, b := range a.blocks() {
 		if len(b.Instrs) == 0 {
 			continue
 		}
